@@ -130,9 +130,8 @@ func solveQueryL(q string, logic string, quick time.Duration, full time.Duration
 		short = full
 	}
 	if noCvc5 {
-		if r, _, ok := race([]string{"z3-new", "z3"}, []time.Duration{short, short}); ok {
-			return r
-		}
+		// one race for the whole time: restarting the same solvers after a
+		// short first stage only repeats work
 		last, outs, ok := race([]string{"z3-new", "z3"}, []time.Duration{full, full})
 		if ok {
 			return last
@@ -143,9 +142,7 @@ func solveQueryL(q string, logic string, quick time.Duration, full time.Duration
 		}
 		return solverRes{st, "none", strings.Join(outs, " | "), time.Since(start).Seconds()}
 	}
-	if r, _, ok := race([]string{"z3-new", "cvc5"}, []time.Duration{quick, short}); ok {
-		return r
-	}
+	_ = short
 	last, outs, ok := race([]string{"z3-new", "cvc5", "z3"}, []time.Duration{full, full, full})
 	if ok {
 		return last
